@@ -28,6 +28,7 @@ type Program struct {
 	Fset       *token.FileSet
 	Pkgs       map[string]*ssa.Package
 	Overrides  map[string]map[string]*ssa.Function // target -> declaring harness package -> replacement
+	OverrideExcept map[string]map[string]bool       // "target|package" -> harness functions for which the override is off
 	OverrideList []string
 	intrinsics map[string]Intrinsic
 	LoadTime   time.Duration
@@ -63,7 +64,7 @@ func Overlay(repoDir, harnessDir string) (map[string][]byte, map[string]string, 
 	return ov, paths, err
 }
 
-var overrideRe = regexp.MustCompile(`(?m)^//verif:override\s+(\S.*?)\s+->\s+(\S+)\s*$`)
+var overrideRe = regexp.MustCompile(`(?m)^//verif:override\s+(\S.*?)\s+->\s+(\S+)(?:\s+except=(\S+))?\s*$`)
 
 // Load type-checks the given packages of /repo (with the harness overlay) and builds SSA.
 func Load(repoDir, harnessDir string, pkgPaths []string) (*Program, error) {
@@ -128,6 +129,16 @@ func Load(repoDir, harnessDir string, pkgPaths []string) (*Program, error) {
 				P.Overrides[target] = map[string]*ssa.Function{}
 			}
 			P.Overrides[target][pkgPath] = fn
+			if m[3] != "" {
+				if P.OverrideExcept == nil {
+					P.OverrideExcept = map[string]map[string]bool{}
+				}
+				ex := map[string]bool{}
+				for _, h := range strings.Split(m[3], ",") {
+					ex[h] = true
+				}
+				P.OverrideExcept[target+"|"+pkgPath] = ex
+			}
 			P.OverrideList = append(P.OverrideList, target+" -> "+pkgPath+"."+repl)
 		}
 	}
@@ -139,12 +150,15 @@ func Load(repoDir, harnessDir string, pkgPaths []string) (*Program, error) {
 // override returns the replacement of a dependency function that is in force for a harness of package entryPkg: overrides
 // are scoped to the harness package that declares them (plus the global ones of the zzverif package), so that harnesses of
 // different packages loaded in one run do not redirect each other's dependencies.
-func (P *Program) override(name, entryPkg string) *ssa.Function {
+func (P *Program) override(name, entryPkg, harness string) *ssa.Function {
 	m := P.Overrides[name]
 	if m == nil {
 		return nil
 	}
 	if fn := m[entryPkg]; fn != nil {
+		if P.OverrideExcept[name+"|"+entryPkg][harness] {
+			return nil
+		}
 		return fn
 	}
 	return m[HaqqMod+"/zzverif"]
@@ -304,17 +318,9 @@ type CallSiteArg struct {
 // CallArgTypes lists, for every static call of calleeName inside fnName (closures included), the concrete type that is
 // converted to the interface parameter number arg (0-based, receiver excluded). It reads the SSA built from the current source.
 func (P *Program) CallArgTypes(fnName, calleeName string, arg int) ([]CallSiteArg, error) {
-	i := strings.LastIndex(fnName, ".")
-	if i < 0 {
-		return nil, fmt.Errorf("bad function name %s", fnName)
-	}
-	sp := P.Pkgs[fnName[:i]]
-	if sp == nil {
-		return nil, fmt.Errorf("package %s not loaded", fnName[:i])
-	}
-	fn := sp.Func(fnName[i+1:])
-	if fn == nil {
-		return nil, fmt.Errorf("function %s not found", fnName)
+	fn, err := P.FindFunction(fnName)
+	if err != nil {
+		return nil, err
 	}
 	var out []CallSiteArg
 	done := map[*ssa.Function]bool{}
@@ -340,6 +346,82 @@ func (P *Program) CallArgTypes(fnName, calleeName string, arg int) ([]CallSiteAr
 					site.Type = mi.X.Type().String()
 				}
 				out = append(out, site)
+			}
+		}
+		for _, a := range f.AnonFuncs {
+			walk(a)
+		}
+	}
+	walk(fn)
+	return out, nil
+}
+
+
+// FindFunction resolves "pkg/path.Func", "(pkg/path.Type).Method" or "(*pkg/path.Type).Method" in the loaded program.
+func (P *Program) FindFunction(name string) (*ssa.Function, error) {
+	if strings.HasPrefix(name, "(") {
+		end := strings.Index(name, ").")
+		if end < 0 {
+			return nil, fmt.Errorf("bad method name %s", name)
+		}
+		recv, meth := name[1:end], name[end+2:]
+		ptr := strings.HasPrefix(recv, "*")
+		recv = strings.TrimPrefix(recv, "*")
+		i := strings.LastIndex(recv, ".")
+		sp := P.Pkgs[recv[:i]]
+		if sp == nil {
+			return nil, fmt.Errorf("package %s not loaded", recv[:i])
+		}
+		t := sp.Type(recv[i+1:])
+		if t == nil {
+			return nil, fmt.Errorf("type %s not found", recv)
+		}
+		var T types.Type = t.Type()
+		if ptr {
+			T = types.NewPointer(T)
+		}
+		fn := P.Prog.LookupMethod(T, sp.Pkg, meth)
+		if fn == nil {
+			return nil, fmt.Errorf("method %s not found", name)
+		}
+		return fn, nil
+	}
+	i := strings.LastIndex(name, ".")
+	if i < 0 {
+		return nil, fmt.Errorf("bad function name %s", name)
+	}
+	sp := P.Pkgs[name[:i]]
+	if sp == nil {
+		return nil, fmt.Errorf("package %s not loaded", name[:i])
+	}
+	fn := sp.Func(name[i+1:])
+	if fn == nil {
+		return nil, fmt.Errorf("function %s not found", name)
+	}
+	return fn, nil
+}
+
+// StaticCallees lists the static callees (qualified names) of a function and its closures with the number of call sites.
+func (P *Program) StaticCallees(fnName string) (map[string]int, error) {
+	fn, err := P.FindFunction(fnName)
+	if err != nil {
+		return nil, err
+	}
+	out := map[string]int{}
+	done := map[*ssa.Function]bool{}
+	var walk func(f *ssa.Function)
+	walk = func(f *ssa.Function) {
+		if f == nil || done[f] {
+			return
+		}
+		done[f] = true
+		for _, b := range f.Blocks {
+			for _, in := range b.Instrs {
+				if c, ok := in.(ssa.CallInstruction); ok {
+					if cf := c.Common().StaticCallee(); cf != nil {
+						out[cf.String()]++
+					}
+				}
 			}
 		}
 		for _, a := range f.AnonFuncs {
